@@ -55,6 +55,20 @@ def specDecodePush : List (Nat × Nat) → Nat → Nat → Nat × End
       (r.1 + 1, r.2)
     else (0, if k = 0 then .eos else .err)
 
+/-- Avro object container, frame-size level, as `arrow_avro::reader::Reader::read` behaves *as
+written*: a cut inside the header (magic, metadata map, 16-byte sync marker; `header` bytes) is
+an error (also the empty file); after the header the rows of the blocks that lie completely
+within the first `k` bytes are returned and the reader then reports end of data — a cut inside a
+block is NOT an error (`fill_buf` returning nothing sets `finished` whatever the block decoder
+holds); `blocks` are `(block size, rows)`. Correspondence only (no byte-level model). -/
+def specAvro (header : Nat) : List (Nat × Nat) → Nat → Nat × End
+  | bs, k =>
+    if k < header then (0, .err) else
+    let rec go : List (Nat × Nat) → Nat → Nat
+      | [], _ => 0
+      | (sz, rows) :: rest, r => if sz ≤ r then rows + go rest (r - sz) else 0
+    (go bs (k - header), .eos)
+
 /-! ### (b) footer formats -/
 
 /-- little-endian 4-byte encoding -/
